@@ -89,19 +89,50 @@ theorem fragC_scalar {env : Env} {file : AFile} {G : List String} {Γ : Ctx} {K 
     simp only [fragC, binOK, Bool.and_eq_true] at h
     exact scalarEq_flat h.2.2
   | call f args ty =>
+    simp only [fragC, Bool.or_eq_true] at h
     cases f with
     | var name fty =>
-      simp only [fragC, callOK, Bool.and_eq_true] at h
-      obtain ⟨_, hcase⟩ := h
-      cases hs : builtinSig name with
-      | some pr => rw [hs] at hcase; simp only [Bool.and_eq_true] at hcase; exact scalarEq_flat hcase.2
-      | none =>
-        rw [hs] at hcase; simp only at hcase
-        cases hf : file.find? (·.name == name) with
-        | none => rw [hf] at hcase; simp at hcase
-        | some g => rw [hf] at hcase; simp only [Bool.and_eq_true] at hcase; exact scalarEq_flat hcase.2
-    | prim p t => simp [fragC, callOK] at h
-    | tag i t => simp [fragC, callOK] at h
+      rcases h with h | h
+      · simp only [callOK, Bool.and_eq_true] at h
+        obtain ⟨_, hcase⟩ := h
+        cases hs : builtinSig name with
+        | some pr => rw [hs] at hcase; simp only [Bool.and_eq_true] at hcase; exact scalarEq_flat hcase.2
+        | none =>
+          rw [hs] at hcase; simp only at hcase
+          cases hf : file.find? (·.name == name) with
+          | none => rw [hf] at hcase; simp at hcase
+          | some g => rw [hf] at hcase; simp only [Bool.and_eq_true] at hcase; exact scalarEq_flat hcase.2
+      · simp only [refCallOK, Bool.and_eq_true, beq_iff_eq] at h
+        obtain ⟨_, hcase⟩ := h
+        simp only [CExpr.annTy]
+        by_cases h1 : name = "ref"
+        · rw [if_pos h1] at hcase
+          cases ty with
+          | ref e =>
+            simp only [Bool.and_eq_true, refTyOK] at hcase
+            exact valTy_flat hcase.2.1
+          | _ => exact absurd hcase (by simp)
+        · rw [if_neg h1] at hcase
+          by_cases h2 : name = "ref_get"
+          · rw [if_pos h2] at hcase
+            simp only [Bool.and_eq_true, refTyOK] at hcase
+            have := valTy_flat hcase.2.1
+            simpa [flatTy] using this
+          · rw [if_neg h2] at hcase
+            by_cases h3 : name = "ref_set"
+            · rw [if_pos h3] at hcase
+              cases args with
+              | nil => cases hcase
+              | cons r rest =>
+                simp only at hcase
+                cases hrty : r.ty with
+                | ref e =>
+                  rw [hrty] at hcase; simp only [Bool.and_eq_true] at hcase
+                  exact scalarEq_flat hcase.1.2
+                | _ => rw [hrty] at hcase; cases hcase
+            · rw [if_neg h3] at hcase; cases hcase
+    | prim p t => simp [callOK, refCallOK] at h
+    | tag i t => simp [callOK, refCallOK] at h
   | ite c t e ty => simp only [fragC, Bool.and_eq_true] at h; exact scalarEq_scalar_right h.1.2
   | «while» c b ty => simp only [fragC, Bool.and_eq_true] at h; exact scalarEq_flat h.2
   | matchE s arms d ty => simp only [fragC, Bool.and_eq_true] at h; exact h.1.2
@@ -142,18 +173,19 @@ theorem bindSimple_shape {env : Env} {file : AFile} {G : List String} {Γ : Ctx}
 
 /-- the rest of a `let`: the binding `x` has just been made by the prefix `var x … ; d1`, which
     left `D1` (declarations of `d1`) on top of it -/
-theorem let_body {env : Env} {file : AFile} {G : List String} {P : Prog} {F : GFile} {n : Nat}
+theorem let_body {env : Env} {η η1 : Hp} {file : AFile} {G : List String} {P : Prog} {F : GFile} {n : Nat}
     (ha : SimA env file G P F n) (m : Mode) (st2 : St) (x : String) (tx : Ty) (body : AExpr) (Γ : Ctx) (K : KCtx) (ρ : Sem.Env)
     (gρ : GEnv) (gw : GWorld) (Bad : List String) (T : GTy) (init : Option GExpr) (d1 : List GStmt)
     (D1 : GEnv) (vv : Val) (gv : GVal) (w1 : World) (gw1 : GWorld)
     (hpre : BlockS F gρ gw (.varDecl (vn x) T init :: d1) (.ok (D1 ++ (vn x, gv) :: gρ, .normal) gw1))
     (hD1 : ∀ y, y ∈ keys D1 → y ∈ ndDecls d1)
     (hinv : GInv Bad ((.varDecl (vn x) T init :: d1) ++ (compileA env m st2 body).1) gρ)
-    (hrel : EnvRel env Γ ρ gρ) (hkrel : KRel K ρ) (h3 : toGV env vv = some gv) (h4 : HasTy env vv tx) (hw1 : WRel w1 gw1)
+    (hrel0 : EnvRel env η Γ ρ gρ) (hle1 : η.le η1) (hkrel : KRel K ρ) (h3 : toGV env η1 vv = some gv) (h4 : HasTy env η1 vv tx) (hw1 : WRel env η1 w1 gw1)
     (hfb : fragA env file G ((x, tx) :: Γ) (eraseK K x) body = true) (htgt : TgtOK m Γ gρ (aTy body)) (hus : "_" ∈ Bad)
-    (hcal : ∀ c, c ∈ calleesA body → vn c ∈ Bad) :
-    Concl env F ((.varDecl (vn x) T init :: d1) ++ (compileA env m st2 body).1) m gρ gw (aTy body)
+    (hcal : ∀ c, c ∈ calleesA body → c ∈ Bad) :
+    Concl env η F ((.varDecl (vn x) T init :: d1) ++ (compileA env m st2 body).1) m gρ gw (aTy body)
       (Sem.eval n P ((x, vv) :: ρ) w1 body.toExpr) := by
+  have hrel : EnvRel env η1 Γ ρ gρ := hrel0.mono hle1
   have hdecls : ndDecls ((GStmt.varDecl (vn x) T init :: d1) ++ (compileA env m st2 body).1) =
       vn x :: (ndDecls d1 ++ ndDecls (compileA env m st2 body).1) := by
     rw [ndDecls_append, ndDecls_varDecl]; rfl
@@ -164,7 +196,7 @@ theorem let_body {env : Env} {file : AFile} {G : List String} {P : Prog} {F : GF
     hinv.disj y (by rw [hdecls]; exact List.mem_cons_of_mem _ (List.mem_append_left _ (hD1 y hy)))
   have hD1x : ¬ vn x ∈ keys D1 := fun h => hxnot (List.mem_append_left _ (hD1 _ h))
   -- environments after the prefix
-  have hrel2 : EnvRel env ((x, tx) :: Γ) ((x, vv) :: ρ) (D1 ++ (vn x, gv) :: gρ) := by
+  have hrel2 : EnvRel env η1 ((x, tx) :: Γ) ((x, vv) :: ρ) (D1 ++ (vn x, gv) :: gρ) := by
     refine (hrel.cons hfresh h3 h4).go_agree (fun y ty hy => lookup_append_right ?_ _)
     obtain ⟨_, _, _, h2, _, _⟩ := (hrel.cons hfresh h3 h4).1 y ty hy
     have hk := key_of_lookup_some h2
@@ -198,13 +230,13 @@ theorem let_body {env : Env} {file : AFile} {G : List String} {P : Prog} {F : GF
     rintro (h | h)
     · exact hD1disj _ h htk
     · simp only [Goml.Dce.keys_cons, Goml.Dce.keys_nil, List.mem_singleton] at h; exact hfresh (h ▸ htk)
-  have hB := ha m st2 body ((x, tx) :: Γ) (eraseK K x) ((x, vv) :: ρ) w1 (D1 ++ (vn x, gv) :: gρ) gw1 Bad hfb hrel2 (hkrel.bind x vv) hw1 hinv2 htgt2 hus hcal
+  have hB := ha m st2 body η1 ((x, tx) :: Γ) (eraseK K x) ((x, vv) :: ρ) w1 (D1 ++ (vn x, gv) :: gρ) gw1 Bad hfb hrel2 (hkrel.bind x vv) hw1 hinv2 htgt2 hus hcal
   revert hB
   cases hres : Sem.eval n P ((x, vv) :: ρ) w1 body.toExpr with
   | ok v2 w2 =>
-    rintro ⟨D2, gv2, gw2, hb, g3, g4, g5, hD2⟩
+    rintro ⟨η2, hle2, D2, gv2, gw2, hb, g3, g4, g5, hD2⟩
     rw [hpost gv2] at hb
-    refine ⟨D2 ++ (D1 ++ [(vn x, gv)]), gv2, gw2, ?_, g3, g4, g5, fun y hy => ?_⟩
+    refine ⟨η2, Hp.le_trans hle1 hle2, D2 ++ (D1 ++ [(vn x, gv)]), gv2, gw2, ?_, g3, g4, g5, fun y hy => ?_⟩
     · have := block_append hpre hb
       simpa [List.append_assoc] using this
     · rw [hdecls]
@@ -218,25 +250,25 @@ theorem let_body {env : Env} {file : AFile} {G : List String} {P : Prog} {F : GF
   | fail fl w2 =>
     cases fl with
     | panic k =>
-      rintro ⟨gw2, hb, g5⟩
-      exact ⟨gw2, block_append hpre hb, g5⟩
+      rintro ⟨η2, hle2, gw2, hb, g5⟩
+      exact ⟨η2, Hp.le_trans hle1 hle2, gw2, block_append hpre hb, g5⟩
     | fuel => intro _; trivial
     | stuck s => intro _; trivial
 
 theorem stepA {env : Env} {file : AFile} {G : List String} {P : Prog} {F : GFile} {n : Nat}
     (hc1 : SimC env file G P F (n + 1)) (hv : SimV env file G P F n) (hc : SimC env file G P F n)
     (ha : SimA env file G P F n) : SimA env file G P F (n + 1) := by
-  intro m st e Γ K ρ w gρ gw Bad hfrag hrel hkrel hw hinv htgt hus hcal
+  intro m st e η Γ K ρ w gρ gw Bad hfrag hrel hkrel hw hinv htgt hus hcal
   cases e with
   | ret c =>
     simp only [compileA, AExpr.toExpr, aTy, fragA, calleesA] at *
-    exact hc1 m st c Γ K ρ w gρ gw Bad hfrag hrel hkrel hw hinv htgt hus hcal
+    exact hc1 m st c η Γ K ρ w gρ gw Bad hfrag hrel hkrel hw hinv htgt hus hcal
   | letE x v body ty =>
     simp only [fragA, Bool.and_eq_true] at hfrag
     obtain ⟨hfv, hfb⟩ := hfrag
     simp only [AExpr.toExpr, aTy] at htgt ⊢
-    have hcalv : ∀ c, c ∈ calleesC v → vn c ∈ Bad := fun c hc' => hcal c (by simp [calleesA, hc'])
-    have hcalb : ∀ c, c ∈ calleesA body → vn c ∈ Bad := fun c hc' => hcal c (by simp [calleesA, hc'])
+    have hcalv : ∀ c, c ∈ calleesC v → c ∈ Bad := fun c hc' => hcal c (by simp [calleesA, hc'])
+    have hcalb : ∀ c, c ∈ calleesA body → c ∈ Bad := fun c hc' => hcal c (by simp [calleesA, hc'])
     have hsc := fragC_scalar hfv
     rw [Sem.eval]
     by_cases hctl : isCtl v = true
@@ -257,7 +289,7 @@ theorem stepA {env : Env} {file : AFile} {G : List String} {P : Prog} {F : GFile
       have hne : ∀ y ty, lookupTy Γ y = some ty → vn y ≠ vn x := fun y ty hy e => by
         obtain ⟨_, _, _, h2, _, _⟩ := hrel.1 y ty hy
         exact hfresh (e ▸ key_of_lookup_some h2)
-      have hrel1 : EnvRel env Γ ρ ((vn x, zero F (goTy v.annTy)) :: gρ) :=
+      have hrel1 : EnvRel env η Γ ρ ((vn x, zero F (goTy v.annTy)) :: gρ) :=
         hrel.go_agree (fun y ty hy => lookup_cons_ne _ _ (fun e => hne y ty hy e.symm))
       have hinvd : GInv Bad d.1 ((vn x, zero F (goTy v.annTy)) :: gρ) := by
         have h1 := GInv.right (a := [GStmt.varDecl (vn x) (goTy v.annTy) none]) (b := d.1 ++ (compileA env m d.2 body).1)
@@ -268,24 +300,24 @@ theorem stepA {env : Env} {file : AFile} {G : List String} {P : Prog} {F : GFile
       have htgtd : TgtOK (.assign (rn x)) Γ ((vn x, zero F (goTy v.annTy)) :: gρ) v.annTy := by
         refine ⟨by rw [← vn_def]; simp, fun y ty hy => ?_⟩
         rw [← vn_def]; exact hne y ty hy
-      have hD := hc (.assign (rn x)) st1 v Γ K ρ w _ gw Bad hfv hrel1 hkrel hw (hd ▸ hinvd) htgtd hus hcalv
+      have hD := hc (.assign (rn x)) st1 v η Γ K ρ w _ gw Bad hfv hrel1 hkrel hw (hd ▸ hinvd) htgtd hus hcalv
       rw [hd] at hD
       revert hD
       cases hres : Sem.eval n P ρ w v.toExpr with
       | ok vv w1 =>
-        rintro ⟨D1, gv, gw1, hb, h3, h4, h5, hD1⟩
+        rintro ⟨η1, hle1, D1, gv, gw1, hb, h3, h4, h5, hD1⟩
         simp only
         have hup : post (.assign (rn x)) ((vn x, zero F (goTy v.annTy)) :: gρ) gv = (vn x, gv) :: gρ := by
           simp only [post]; rw [← vn_def]; exact update_cons_self _ _ _ _
         rw [hup] at hb
-        exact let_body ha m d.2 x v.annTy body Γ K ρ gρ gw Bad _ _ d.1 D1 vv gv w1 gw1 (block_cons hvd hb) hD1 hinv hrel hkrel h3 h4 h5
+        exact let_body ha m d.2 x v.annTy body Γ K ρ gρ gw Bad _ _ d.1 D1 vv gv w1 gw1 (block_cons hvd hb) hD1 hinv hrel hle1 hkrel h3 h4 h5
           hfb htgt hus hcalb
       | fail fl w1 =>
         cases fl with
         | panic k =>
-          rintro ⟨gw1, hb, h5⟩
+          rintro ⟨η1, hle1, gw1, hb, h5⟩
           simp only
-          refine ⟨gw1, ?_, h5⟩
+          refine ⟨η1, hle1, gw1, ?_, h5⟩
           rw [← hcons]
           exact block_cons hvd (block_append_panic hb)
         | fuel => intro _; trivial
@@ -294,22 +326,22 @@ theorem stepA {env : Env} {file : AFile} {G : List String} {P : Prog} {F : GFile
       have hctl' : isCtl v = false := by simpa using hctl
       simp only [compileA, hctl', Bool.false_eq_true, if_false, bindSimple_shape x hfv] at hinv ⊢
       generalize hst1 : st.check (okBindSimple env v) = st1 at hinv ⊢
-      have hV := hv v Γ K ρ w gρ gw Bad hctl' hfv hrel hkrel hw hinv.goodK hcalv
+      have hV := hv v η Γ K ρ w gρ gw Bad hctl' hfv hrel hkrel hw hinv.goodK hcalv
       revert hV
       cases hres : Sem.eval n P ρ w v.toExpr with
       | ok vv w1 =>
-        rintro ⟨gv, gw1, he, h3, h4, h5, _⟩
+        rintro ⟨η1, hle1, gv, gw1, he, h3, h4, h5, _⟩
         simp only
         have hvd : StmtS F gρ gw (.varDecl (vn x) (goTy v.annTy) (some (compileCExpr env v)))
             (.ok ((vn x, gv) :: gρ, .normal) gw1) := stmt_varDecl_some (flat_not_absurd hsc) he
         exact let_body ha m st1 x v.annTy body Γ K ρ gρ gw Bad _ _ [] [] vv gv w1 gw1 (block_cons hvd block_nil)
-          (fun y hy => by cases hy) hinv hrel hkrel h3 h4 h5 hfb htgt hus hcalb
+          (fun y hy => by cases hy) hinv hrel hle1 hkrel h3 h4 h5 hfb htgt hus hcalb
       | fail fl w1 =>
         cases fl with
         | panic k =>
-          rintro ⟨gw1, he, h5, _⟩
+          rintro ⟨η1, hle1, gw1, he, h5, _⟩
           simp only
-          exact ⟨gw1, block_cons_fail (stmt_varDecl_fail (flat_not_absurd hsc) he), h5⟩
+          exact ⟨η1, hle1, gw1, block_cons_fail (stmt_varDecl_fail (flat_not_absurd hsc) he), h5⟩
         | fuel => intro _; trivial
         | stuck s => intro _; trivial
 
@@ -333,21 +365,21 @@ theorem compileA_let (env : Env) (m : Mode) (st : St) (x : String) (v : CExpr) (
 
 /-- **ordering**: the statements of `v` run to completion — leaving the `Sem` world after `v` and
     the value of `v` in `x` — before any statement of the body; if `v` panics, nothing after it runs -/
-theorem let_order {env : Env} {file : AFile} {G : List String} {P : Prog} {F : GFile} {n : Nat}
+theorem let_order {env : Env} {η : Hp} {file : AFile} {G : List String} {P : Prog} {F : GFile} {n : Nat}
     (hv : SimV env file G P F n) (hc : SimC env file G P F n)
     (m : Mode) (st : St) (x : String) (v : CExpr) (body : AExpr) (ty : Ty) (Γ : Ctx) (K : KCtx) (ρ : Sem.Env) (w : World)
     (gρ : GEnv) (gw : GWorld) (Bad : List String)
-    (hfrag : fragA env file G Γ K (.letE x v body ty) = true) (hrel : EnvRel env Γ ρ gρ) (hkrel : KRel K ρ) (hw : WRel w gw)
+    (hfrag : fragA env file G Γ K (.letE x v body ty) = true) (hrel : EnvRel env η Γ ρ gρ) (hkrel : KRel K ρ) (hw : WRel env η w gw)
     (hinv : GInv Bad (compileA env m st (.letE x v body ty)).1 gρ) (hus : "_" ∈ Bad)
-    (hcal : ∀ c, c ∈ calleesA (.letE x v body ty) → vn c ∈ Bad) :
+    (hcal : ∀ c, c ∈ calleesA (.letE x v body ty) → c ∈ Bad) :
     match Sem.eval n P ρ w v.toExpr with
-    | .ok vv w1 => ∃ env1 gv gw1, BlockS F gρ gw (letPrefix env st x v) (.ok (env1, .normal) gw1) ∧ WRel w1 gw1 ∧
-        lookupG env1 (vn x) = some gv ∧ toGV env vv = some gv
-    | .fail (.panic k) w1 => ∀ rest, ∃ gw1, BlockS F gρ gw (letPrefix env st x v ++ rest) (.fail (.panic k) gw1) ∧ WRel w1 gw1
+    | .ok vv w1 => ∃ η1, η.le η1 ∧ ∃ env1 gv gw1, BlockS F gρ gw (letPrefix env st x v) (.ok (env1, .normal) gw1) ∧ WRel env η1 w1 gw1 ∧
+        lookupG env1 (vn x) = some gv ∧ toGV env η1 vv = some gv
+    | .fail (.panic k) w1 => ∀ rest, ∃ η1, η.le η1 ∧ ∃ gw1, BlockS F gρ gw (letPrefix env st x v ++ rest) (.fail (.panic k) gw1) ∧ WRel env η1 w1 gw1
     | _ => True := by
   simp only [fragA, Bool.and_eq_true] at hfrag
   obtain ⟨hfv, hfb⟩ := hfrag
-  have hcalv : ∀ c, c ∈ calleesC v → vn c ∈ Bad := fun c hc' => hcal c (by simp [calleesA, hc'])
+  have hcalv : ∀ c, c ∈ calleesC v → c ∈ Bad := fun c hc' => hcal c (by simp [calleesA, hc'])
   have hsc := fragC_scalar hfv
   rw [compileA_let] at hinv
   have hinvP := hinv.left
@@ -361,7 +393,7 @@ theorem let_order {env : Env} {file : AFile} {G : List String} {P : Prog} {F : G
     have hne : ∀ y ty, lookupTy Γ y = some ty → vn y ≠ vn x := fun y ty hy e => by
       obtain ⟨_, _, _, h2, _, _⟩ := hrel.1 y ty hy
       exact hfresh (e ▸ Goml.Dce.key_of_lookup_some h2)
-    have hrel1 : EnvRel env Γ ρ ((vn x, zero F (goTy v.annTy)) :: gρ) :=
+    have hrel1 : EnvRel env η Γ ρ ((vn x, zero F (goTy v.annTy)) :: gρ) :=
       hrel.go_agree (fun y ty hy => Goml.Dce.lookup_cons_ne _ _ (fun e => hne y ty hy e.symm))
     have hinvd : GInv Bad d.1 ((vn x, zero F (goTy v.annTy)) :: gρ) :=
       GInv.right (a := [GStmt.varDecl (vn x) (goTy v.annTy) none]) (b := d.1)
@@ -371,42 +403,42 @@ theorem let_order {env : Env} {file : AFile} {G : List String} {P : Prog} {F : G
     have htgtd : TgtOK (.assign (rn x)) Γ ((vn x, zero F (goTy v.annTy)) :: gρ) v.annTy := by
       refine ⟨by rw [← vn_def]; simp, fun y ty hy => ?_⟩
       rw [← vn_def]; exact hne y ty hy
-    have hD := hc (.assign (rn x)) _ v Γ K ρ w _ gw Bad hfv hrel1 hkrel hw (hd ▸ hinvd) htgtd hus hcalv
+    have hD := hc (.assign (rn x)) _ v η Γ K ρ w _ gw Bad hfv hrel1 hkrel hw (hd ▸ hinvd) htgtd hus hcalv
     rw [hd] at hD
     revert hD
     cases hres : Sem.eval n P ρ w v.toExpr with
     | ok vv w1 =>
-      rintro ⟨D1, gv, gw1, hb, h3, h4, h5, hD1⟩
+      rintro ⟨η1, hle1, D1, gv, gw1, hb, h3, h4, h5, hD1⟩
       have hup : post (.assign (rn x)) ((vn x, zero F (goTy v.annTy)) :: gρ) gv = (vn x, gv) :: gρ := by
         simp only [post]; rw [← vn_def]; exact update_cons_self _ _ _ _
       rw [hup] at hb
       have hxD1 : ¬ vn x ∈ Goml.Dce.keys D1 := fun h => by
         have hnd := hinvP.nodup; rw [ndDecls_varDecl] at hnd
         exact (List.nodup_cons.mp hnd).1 (hD1 _ h)
-      exact ⟨_, gv, gw1, block_cons hvd hb, h5, by rw [lookup_append_right hxD1]; exact Goml.Dce.lookup_cons_self _ _ _, h3⟩
+      exact ⟨η1, hle1, _, gv, gw1, block_cons hvd hb, h5, by rw [lookup_append_right hxD1]; exact Goml.Dce.lookup_cons_self _ _ _, h3⟩
     | fail fl w1 =>
       cases fl with
       | panic k =>
-        rintro ⟨gw1, hb, h5⟩
+        rintro ⟨η1, hle1, gw1, hb, h5⟩
         intro rest
-        exact ⟨gw1, block_cons hvd (block_append_panic (b := rest) hb), h5⟩
+        exact ⟨η1, hle1, gw1, block_cons hvd (block_append_panic (b := rest) hb), h5⟩
       | fuel => intro _; trivial
       | stuck s => intro _; trivial
   · have hctl' : isCtl v = false := by simpa using hctl
     simp only [letPrefix, hctl', Bool.false_eq_true, if_false, bindSimple_shape x hfv] at hinvP ⊢
-    have hV := hv v Γ K ρ w gρ gw Bad hctl' hfv hrel hkrel hw hinvP.goodK hcalv
+    have hV := hv v η Γ K ρ w gρ gw Bad hctl' hfv hrel hkrel hw hinvP.goodK hcalv
     revert hV
     cases hres : Sem.eval n P ρ w v.toExpr with
     | ok vv w1 =>
-      rintro ⟨gv, gw1, he, h3, h4, h5, _⟩
-      exact ⟨_, gv, gw1, block_cons (stmt_varDecl_some (flat_not_absurd hsc) he) block_nil, h5,
+      rintro ⟨η1, hle1, gv, gw1, he, h3, h4, h5, _⟩
+      exact ⟨η1, hle1, _, gv, gw1, block_cons (stmt_varDecl_some (flat_not_absurd hsc) he) block_nil, h5,
         Goml.Dce.lookup_cons_self _ _ _, h3⟩
     | fail fl w1 =>
       cases fl with
       | panic k =>
-        rintro ⟨gw1, he, h5, _⟩
+        rintro ⟨η1, hle1, gw1, he, h5, _⟩
         intro rest
-        exact ⟨gw1, block_cons_fail (stmt_varDecl_fail (flat_not_absurd hsc) he), h5⟩
+        exact ⟨η1, hle1, gw1, block_cons_fail (stmt_varDecl_fail (flat_not_absurd hsc) he), h5⟩
       | fuel => intro _; trivial
       | stuck s => intro _; trivial
 
